@@ -8,6 +8,10 @@ C04 (scalar planner totality) — final statements only; all proofs are in `RFV/
   (D)  `planScalar_ok`            the scalar planner reaches no `.error` (assert / unwrap / fuel) for any length,
                                   and the recipe it builds has the requested length
   (E)  `bluesteinInnerLen_bounds` `2n-1 ≤ M < 4n` for the Bluestein inner length
+       `planSse_ok`               the SSE twin of (D)
+  (F)  `planScalar_fuel_irrelevant`, `planSse_fuel_irrelevant`
+                                  any run of the fuel-bounded recursion that succeeds, at any fuel, returns the
+                                  planner's recipe (so the value chosen for `planFuel` cannot change a result)
 -/
 import RFV.Proofs.ArithLemmas
 import RFV.Proofs.PlanScalar
@@ -80,10 +84,19 @@ example : ∃ f l r, PrimeFactors.compute 1001 = .ok f ∧ f.partition = .ok (l,
 theorem planScalar_ok (n : Nat) : ∃ r, planScalar n = .ok r ∧ r.len = n :=
   scalarForLen_ok n (planFuel n) (by unfold planFuel; omega)
 
-/-- the same at every larger fuel (so the choice of `planFuel` is immaterial) -/
+/-- the same at every fuel `≥ 2n + 9` -/
 theorem scalarForLen_total (n fuel : Nat) (h : 2 * n + 9 ≤ fuel) :
     ∃ r, scalarForLen fuel n = .ok r ∧ r.len = n :=
   scalarForLen_ok n fuel h
+
+/-- (F) a successful run at *any* fuel gives exactly the recipe of `planScalar` -/
+theorem planScalar_fuel_irrelevant (fuel n : Nat) (r : Recipe) (h : scalarForLen fuel n = .ok r) :
+    planScalar n = .ok r := by
+  obtain ⟨r', hr', _⟩ := planScalar_ok n
+  have h1 := scalarForLen_mono (Nat.le_max_left fuel (planFuel n)) h
+  have h2 := scalarForLen_mono (Nat.le_max_right fuel (planFuel n)) hr'
+  rw [h1] at h2
+  rw [hr']; exact h2.symm
 
 example : ∃ r, planScalar 1009 = .ok r ∧ r.len = 1009 := planScalar_ok 1009
 example : ∃ r, planScalar (2 ^ 61 - 1) = .ok r ∧ r.len = 2 ^ 61 - 1 := planScalar_ok _
@@ -105,5 +118,24 @@ example : 2 * 1009 - 1 ≤ bluesteinInnerLen 1009 ∧ bluesteinInnerLen 1009 < 4
   bluesteinInnerLen_bounds 1009 (by decide)
 example : bluesteinInnerLen 1009 = 2048 := by decide
 example : bluesteinInnerLen 47 = 96 := by decide
+
+/-! ## (E) the SSE planner is total and length-correct -/
+
+theorem planSse_ok (n : Nat) : ∃ r, planSse n = .ok r ∧ r.len = n :=
+  sseForLen_ok n (planFuel n) (by unfold planFuel; omega)
+
+theorem planSse_fuel_irrelevant (fuel n : Nat) (r : Recipe) (h : sseForLen fuel n = .ok r) :
+    planSse n = .ok r := by
+  obtain ⟨r', hr', _⟩ := planSse_ok n
+  have h1 := sseForLen_mono (Nat.le_max_left fuel (planFuel n)) h
+  have h2 := sseForLen_mono (Nat.le_max_right fuel (planFuel n)) hr'
+  rw [h1] at h2
+  rw [hr']; exact h2.symm
+
+example : ∃ r, planSse 1009 = .ok r ∧ r.len = 1009 := planSse_ok 1009
+example : ∃ r, planSse (3 * 2 ^ 40 * 1000003) = .ok r ∧ r.len = 3 * 2 ^ 40 * 1000003 := planSse_ok _
+example : planSse 0 = .ok (.dft 0) := by decide
+example : planSse 1 = .ok (.bfly 1) := by decide
+example : planSse 24 = .ok (.bfly 24) := by decide
 
 end RFV
